@@ -150,3 +150,40 @@ Proof.
     + rewrite (He eq_refl). discriminate.
     + destruct (Hc ltac:(discriminate)) as [ny [nx [d [rn [E _]]]]]. rewrite E. discriminate.
 Qed.
+
+(* ---------------------------------------------------------------- minimum Feret diameter, end to end *)
+From Centro Require Import Proofs.FeretMinC13 Proofs.HullAreaVecC13Proofs Model.HullAreaC13 Model.HullAreaVecC13.
+
+(* the minimum returned by the sweep on the label's hull is - cross-multiplied - a squared width that the label's
+   own pixel set S attains in a direction normal to a hull edge, and no strip normal to a hull edge that contains S
+   is narrower; no per-run certificate *)
+Theorem feret_min_end_to_end ijv indexes r :
+  NoDup indexes -> (r < length indexes)%nat -> nonneg_rows ijv ->
+  let l := nth r indexes 0 in
+  let S := pts_of ijv l in
+  let V := own_hull ijv l in
+  (3 <= length V)%nat ->
+  exists mx mq bn bd,
+    nth r (feret_rows (fst (convex_hull_ijv ijv indexes))) (sweep []) = Some (mx, mq) /\
+    0 < snd mq /\ 0 < bd /\ fst mq * bd = bn * snd mq /\
+    width_attained S bn bd /\ width_lower (edge_direction V) S bn bd.
+Proof.
+  intros ND Hr Hnn l S V L3.
+  destruct (feret_end_to_end ijv indexes r ND Hr Hnn) as [HS [mx [mq (E & _ & _ & Big)]]]. fold l S V in HS, Big.
+  destruct (Big L3) as [bq (Eb & Pm & Pb & Eq)].
+  destruct (feret_min_edge_flush S V HS L3) as [bn [bd (Eb' & Bd & At & Low)]].
+  rewrite Eb in Eb'. injection Eb' as ->. cbn [fst snd] in *.
+  exists mx, mq, bn, bd. repeat split; try assumption.
+Qed.
+
+(* calculate_convex_hull_areas as written on the rows of C02's convex_hull_ijv *)
+Theorem hull_areas_vec_end_to_end ijv indexes res :
+  NoDup indexes -> (forall j, In j indexes -> 0 <= j) -> nonneg_rows ijv ->
+  hull_areas_vec (map fst (fst (convex_hull_ijv ijv indexes))) (map snd (fst (convex_hull_ijv ijv indexes))) = Some res ->
+  res = hull_areas_rows (fst (convex_hull_ijv ijv indexes)).
+Proof.
+  intros ND NN Hnn H. unfold hull_areas_rows. rewrite <- map_map.
+  apply (hull_areas_vec_correct (map fst (fst (convex_hull_ijv ijv indexes))) (map snd (fst (convex_hull_ijv ijv indexes))) res);
+    [rewrite rows_labels by assumption; exact ND|rewrite rows_labels by assumption; exact NN
+    |rewrite !map_length; reflexivity|exact H].
+Qed.
